@@ -174,6 +174,16 @@ class ModelInterp(MiniEval):
                 return getattr(base, attr)
         if isinstance(base, Hook) and attr in base.attrs:
             return base.attrs[attr]
+        # checker-made classes and their instances (class objects with bases, for code that climbs __bases__)
+        if isinstance(base, type) and getattr(base, '_verif_standin', False):
+            if attr in ('__name__', '__qualname__', '__bases__', '__mro__') or (not attr.startswith('__') and hasattr(base, attr)):
+                v = getattr(base, attr)
+                return tuple(b for b in v if b is not object) if attr in ('__bases__', '__mro__') else v
+        if getattr(type(base), '_verif_standin', False) and not isinstance(base, type):
+            if attr == '__class__':
+                return type(base)
+            if not attr.startswith('__') and hasattr(base, attr):
+                return getattr(base, attr)
         import types as _types
         if type(base) is _types.SimpleNamespace and (attr == '__dict__' or (not attr.startswith('__') and attr in vars(base))):
             return vars(base) if attr == '__dict__' else vars(base)[attr]  # a checker-supplied SimpleNamespace(**names)
